@@ -107,6 +107,40 @@ def run(facts, res):
                                           "rebuild_array_order keeps walking towards older versions after it found a stored full order: an older full order "
                                           "overwrites the nearest one and the collected patches are applied to the wrong base", rb.loc(st.line))
             res.floor("E1", "assignments of the patch base in the rebuilder", n_as, 1)
+            # E1d: every version met on the walk contributes: an iteration of the history loop returns to the loop header only
+            # after pushing that version's edit script (or it assigns the base and leaves, E1c); skipping a version - e.g. a
+            # deletion marker, whose order is the empty array - applies later scripts to the wrong base
+            from .. import iters as _it
+            scripts = set()
+            for bi, t in rb.calls():
+                if t.callee is not None and t.callee.target() == "utils::apply_diff_patch" and len(t.args) > 1:
+                    for x in walk(rdu.operand_term(t.args[1], 44)):
+                        if x[0] == "var":
+                            scripts.add(x[1])
+            pushes = [bi for bi, t in rb.calls() if t.callee is not None and t.callee.name in ("push", "push_back", "insert") and t.args and
+                      any(x[0] == "var" and x[1] in scripts for x in walk(rdu.operand_term(t.args[0], 8)))]
+            base_as = [blk.idx for blk in rb.blocks if not blk.cleanup for st in blk.stmts
+                       if st.kind == "assign" and st.place is not None and st.place.local in bases and not st.place.proj]
+            n_loops = 0
+            for hb, ht in rb.calls():
+                if ht.callee is None or ht.callee.name != "next":
+                    continue
+                body_ = _it.loop_body_blocks(rb, hb)
+                if not any(p_ in body_ for p_ in pushes):
+                    continue
+                n_loops += 1
+                sw = rb.blocks[ht.j["target"]]
+                some_e = None
+                for k_, (v_, tg_) in enumerate(sw.term.switch_edges()):
+                    if v_ == 1:
+                        some_e = rcfg.edge_nodes[(sw.idx, k_)]
+                skip = some_e is not None and rcfg.reaches(some_e, hb, avoid=set(pushes) | set(base_as))
+                res.instance("E1", "rebuild_array_order: every iteration of the history loop pushes the version's script or fixes the base: %s" % (not skip), rb.loc(ht.line))
+                if skip:
+                    res.violation("E1", "array-rebuilder|history-element-skipped",
+                                  "rebuild_array_order can move on to the next older version without recording the current one (neither its script is "
+                                  "pushed nor the base assigned): e.g. a deletion marker is stepped over and later scripts are applied to an older order", rb.loc(ht.line))
+            res.floor("E1", "history loops that collect edit scripts", n_loops, 1)
 
     # ------------------------------------------------------------------ E2
     w = facts.body("utils::make_diff_patch")
